@@ -132,6 +132,20 @@ class Ctx(object):
             self._pool = None
 
 
+def retry_env(fn, *args):
+    """Run fn; if the harness itself timed out (a parked thread did not come back in time on an overloaded machine)
+    run it once more.  Executions are deterministic, so a genuine hang fails again and is raised."""
+    try:
+        return fn(*args)
+    except Exception as e:
+        name = type(e).__name__
+        if name == "HarnessStuck" or "did not park" in str(e) or "do not come to rest" in str(e):
+            import sys
+            sys.stderr.write("harness timeout, retrying once: %s\n" % str(e)[:300])
+            return fn(*args)
+        raise
+
+
 def load_known():
     if not os.path.isfile(KNOWN):
         return []
